@@ -333,6 +333,7 @@ def run_property(modname, tier, seed, replay=None):
 
     nviol = 0
     seen_sigs = set()
+    viol.sort(key=lambda v: len(json.dumps(v[0].data, default=str)))   # smallest failing case per signature first
     for c, what, sig in viol:
         if sig in seen_sigs:
             continue
